@@ -55,6 +55,10 @@ fn pick_doc_kind(rng: &mut Rng) -> DocKind {
 pub fn generate(seed: u64, idx: u64) -> Scenario {
     let mut rng = Rng::derive(seed.wrapping_mul(0x9E37_79B9).wrapping_add(idx), "c02");
     let mut s = Session::new();
+    if rng.chance(200) {
+        let (first, stride) = pick_id_scheme(&mut rng);
+        s.id_scheme(first, stride);
+    }
     s.handshake(rng.chance(850));
     let ndocs = rng.range(1, 2);
     let uris: Vec<String> = (0..ndocs).map(fresh_uri).collect();
